@@ -387,6 +387,15 @@ func refEq(a, b cty.Value) int {
 func refMember(ms []cty.Value, x cty.Value) int {
 	res := eqNo
 	for _, m := range ms {
+		if m.IsKnown() && x.IsKnown() && !m.IsNull() && !x.IsNull() && m.Type() == cty.Number && x.Type() == cty.Number {
+			// membership follows the documented equality: two fractions with the same shortest
+			// decimal text, each at its own precision (0.1 as a float64 and "0.1" parsed at 512
+			// bits), are one member although their exact values differ
+			fa, fb := bf(m), bf(x)
+			if fa.Cmp(fb) != 0 && !fa.IsInf() && !fb.IsInf() && !fa.IsInt() && !fb.IsInt() && fa.Text('f', -1) == fb.Text('f', -1) {
+				return eqYes
+			}
+		}
 		switch refEq(m, x) {
 		case eqYes:
 			return eqYes
